@@ -716,6 +716,14 @@ type vauHist struct {
 	// everything ever touched (query targets: present, deleted, re-created)
 	seenRes map[vauRK]bool
 	seenKey map[string]bool
+	// recent creations (account created / re-created, holding or local state or params appearing): targets of the
+	// directed "lookup before its creation round, then flush, then commit, then lookup again" sequences
+	recent []vauCreated
+}
+
+type vauCreated struct {
+	id, cidx uint64 // cidx 0 = an account
+	round    uint64
 }
 
 func vauU(v uint64) *uint64 { return &v }
@@ -851,8 +859,12 @@ func (g *vauHist) genBlock() string {
 		}
 		g.seenKey[k] = true
 	}
+	startEmpty := map[uint64]bool{}
 	setA := func(id uint64, f func(a *vauAcctSt)) {
 		a := g.accts[id]
+		if _, seen := startEmpty[id]; !seen && !dirtyA[id] {
+			startEmpty[id] = a.empty()
+		}
 		f(&a)
 		g.accts[id] = a
 		dirtyA[id] = true
@@ -1045,6 +1057,20 @@ func (g *vauHist) genBlock() string {
 		items = append(items, creat[c])
 	}
 	g.latest++
+	for _, id := range vauSortedKeys(dirtyA) {
+		if !g.accts[id].empty() && startEmpty[id] {
+			g.recent = append(g.recent, vauCreated{id: id, round: g.latest})
+		}
+	}
+	for _, k := range rks {
+		now, before := g.res[k], dirtyR[k]
+		if (now.h != nil && before.h == nil) || (now.p != nil && before.p == nil) {
+			g.recent = append(g.recent, vauCreated{id: k.id, cidx: k.cidx, round: g.latest})
+		}
+	}
+	for len(g.recent) > 0 && g.recent[0].round+12 < g.latest {
+		g.recent = g.recent[1:]
+	}
 	return strings.Join(items, " | ")
 }
 
@@ -1221,6 +1247,38 @@ func (g *vauHist) genQueries(n int) []string {
 	return qs
 }
 
+// directed: for a few recent creations, a lookup just before the creation round (a miss that leaves a not-found mark
+// while that round is still served) and lookups at / after the creation round up to the latest one
+func (g *vauHist) directed() (hist, now []string) {
+	r := g.r
+	if len(g.recent) == 0 {
+		return
+	}
+	for i := 0; i < 1+r.Intn(3); i++ {
+		c := g.recent[r.Intn(len(g.recent))]
+		if c.round == 0 {
+			continue
+		}
+		before := c.round - 1
+		if r.Chance(25) && before > 0 {
+			before--
+		}
+		at := c.round + uint64(r.Intn(int(g.latest-c.round)+1))
+		if c.cidx == 0 {
+			hist = append(hist, fmt.Sprintf("q acct r=%d %d", before, c.id))
+			now = append(now, fmt.Sprintf("q acct r=%d %d", g.latest, c.id), fmt.Sprintf("q acct r=%d %d", at, c.id))
+		} else {
+			t := "S"
+			if vauIsApp(c.cidx) {
+				t = "L"
+			}
+			hist = append(hist, fmt.Sprintf("q res r=%d %d %d %s", before, c.id, c.cidx, t))
+			now = append(now, fmt.Sprintf("q res r=%d %d %d %s", g.latest, c.id, c.cidx, t), fmt.Sprintf("q res r=%d %d %d %s", at, c.id, c.cidx, t))
+		}
+	}
+	return
+}
+
 // vauGenerate: for every history, `variants` cases = the same blocks and the same queries under different
 // configurations and flush / reload / eviction schedules.
 func vauGenerate(seed uint64, nhist, variants, rounds int) []string {
@@ -1244,25 +1302,50 @@ func vauGenerate(seed uint64, nhist, variants, rounds int) []string {
 			nr := rounds/2 + hr.Intn(rounds/2+1)
 			for rd := 0; rd < nr; rd++ {
 				ops = append(ops, g.genBlock())
-				// schedule
+				// what is asked (history stream: the same for every variant) ...
+				qs := g.genQueries(6 + hr.Intn(8))
+				var dh, dn []string
+				if vh.Profile() != "c10" {
+					dh, dn = g.directed()
+				}
+				// ... and the schedule operations of this window between two blocks (schedule stream), in ANY order
+				// relative to the queries: commits, reloads, evictions and flushCaches may come before, between and
+				// after lookups, in particular lookup -> flushCaches -> commit -> lookup with no newBlock in between
+				var sched []string
 				commitPct := []int{70, 15, 0, 40}[style]
 				if sr.Chance(commitPct) {
 					back := uint64(sr.Intn(3))
 					if back > g.latest {
 						back = g.latest
 					}
-					ops = append(ops, fmt.Sprintf("commit r=%d", g.latest-back))
+					sched = append(sched, fmt.Sprintf("commit r=%d", g.latest-back))
 				}
 				if sr.Chance([]int{3, 3, 2, 12}[style]) {
-					ops = append(ops, "reload")
+					sched = append(sched, "reload")
 				}
 				if sr.Chance(15) {
-					ops = append(ops, fmt.Sprintf("evict a=%d r=%d k=%d", sr.Intn(3), sr.Intn(3), sr.Intn(3)))
+					sched = append(sched, fmt.Sprintf("evict a=%d r=%d k=%d", sr.Intn(3), sr.Intn(3), sr.Intn(3)))
 				}
-				if sr.Chance(15) {
-					ops = append(ops, "flush")
+				if sr.Chance(20) {
+					sched = append(sched, "flush")
 				}
-				ops = append(ops, g.genQueries(6+hr.Intn(8))...)
+				if sr.Chance(10) {
+					sched = append(sched, "flush")
+				}
+				if len(dh) > 0 && style != 2 && sr.Chance(35) {
+					// directed window: miss before the creation round, make the mark visible, flush the creation to the DB,
+					// ask again — all without a newBlock
+					ops = append(ops, dh...)
+					ops = append(ops, "flush", fmt.Sprintf("commit r=%d", g.latest))
+					ops = append(ops, dn...)
+					dh, dn = nil, nil
+				}
+				all := append(append(append([]string{}, dh...), qs...), dn...)
+				for _, so := range sched {
+					pos := sr.Intn(len(all) + 1)
+					all = append(all[:pos], append([]string{so}, all[pos:]...)...)
+				}
+				ops = append(ops, all...)
 			}
 		}
 	}
